@@ -587,10 +587,6 @@ func (bc *blockCursor) loadData(tmpBlock *block) bool {
 			}
 		}
 	}
-	if len(tf) == 0 {
-		return false
-	}
-
 	bc.bm.tagFamilies = tf
 	tmpBlock.mustReadFrom(&bc.tagValuesDecoder, bc.p, bc.bm, bc.schemaTagTypes)
 	if len(tmpBlock.timestamps) == 0 {
